@@ -368,7 +368,7 @@ def sub_pool():
 
 # ---- construction histories: building one tokenizer must not change what another one returns -------------------------
 H_TEXTS = ["See 1 T.C. at 1.", "1 H. 1", "supra,§,", "1 CCH Unemployment Ins. Rep. 1", "12 T.C. at 345", "AFF'D§ 3", "1 U.S. at 5", "Foo v. Bar, 1 U.S. 1; id. at 5", "1 Wash. 2d 3"]
-H_OPS = ["full", "noshort", "short", "reversed", "pool"]
+H_OPS = ["full", "noshort", "short", "reversed", "pool", "edit-own"]
 
 
 def h_list(op):
@@ -392,8 +392,17 @@ def check_history(hist):
     built = [("default", T.default_tokenizer, list(T.default_tokenizer.extractors))]
     refs = {}
     for step, op in enumerate(hist):
-        L = h_list(op)
-        built.append((op, T.AhocorasickTokenizer(extractors=L), L))
+        if op == "edit-own":
+            # a default-constructed reference tokenizer whose OWN extractor list is then edited in place (id. and section
+            # extractors removed); other tokenizers must not see that edit
+            own = T.Tokenizer()
+            id_e, sec_e = own.extractors[-5], own.extractors[-1]
+            own.extractors.remove(id_e)
+            own.extractors.remove(sec_e)
+            built.append((op, T.AhocorasickTokenizer(), list(T.EXTRACTORS)))
+        else:
+            L = h_list(op)
+            built.append((op, T.AhocorasickTokenizer(extractors=L), L))
         for name, tk, lst in built:
             key = id(tk)
             if key not in refs:
